@@ -40,8 +40,23 @@ def SEG(k=1):
 INPUTS = {"T": T, "P": P, "S": S, "PT": PT, "SEG": SEG}
 
 
-def make_input(dom, k):
-    return INPUTS[dom](k)
+VARIANTS = {
+    "T": [dict(), dict(c=3, h=24, w=16), dict(c=1, h=16, w=16), dict(c=3, h=32, w=32), dict(c=3, h=8, w=20)],
+    "P": [dict(), dict(h=24, w=40), dict(mode="L"), dict(h=48, w=64), dict(h=9, w=33)],
+    "S": [dict(), dict()],
+    "PT": [dict()],
+    "SEG": [dict()],
+}
+
+
+def make_input(dom, k, variant=0):
+    """variant 0 is the standard input of the domain; others vary size / channels / PIL mode"""
+    v = VARIANTS[dom][variant % len(VARIANTS[dom])]
+    if dom == "S" and variant % 2 == 1:
+        return T(k, 1, 20, 12)
+    if dom == "SEG" and variant % 2 == 1:
+        return (T(k, 3, 24, 16), ((torch.arange(24 * 16).view(24, 16) + k) % 5))
+    return INPUTS[dom](k, **v) if v else INPUTS[dom](k)
 
 
 def clone(x):
